@@ -54,7 +54,19 @@ func (g *goProg) succs(b int) []int {
 }
 func (g *goProg) blockName(b int) string { return fmt.Sprintf("b%d(%s)", b, g.fn.Blocks[b].Comment) }
 
-const lenLimitLog = 46
+const lenLimitLog64 = 46
+
+// goWordBits is the width of int/uint/uintptr in the configuration being analysed.
+var goWordBits uint = 64
+
+// lenLimit: assumed upper bound of every slice length and capacity (address-space assumption):
+// 2^46 on 64-bit targets, 2^29 on 32-bit targets (so that the sum of three lengths still fits an int).
+func lenLimit() Q {
+	if goWordBits == 32 {
+		return qPow2(29)
+	}
+	return qPow2(lenLimitLog64)
+}
 
 func isIntType(t types.Type) (bitsN uint, unsigned bool, ok bool) {
 	b, isB := t.Underlying().(*types.Basic)
@@ -69,8 +81,10 @@ func isIntType(t types.Type) (bitsN uint, unsigned bool, ok bool) {
 		bitsN = 16
 	case types.Int32, types.Uint32:
 		bitsN = 32
-	default:
+	case types.Int64, types.Uint64:
 		bitsN = 64
+	default:
+		bitsN = goWordBits
 	}
 	return bitsN, unsigned, true
 }
@@ -100,20 +114,23 @@ func (g *goProg) havocT(a *AbsState, name string, t types.Type) Lin {
 		g.tab.signed[s] = true
 		return l
 	}
+	lo, hi, _ := g.typeRange(t)
 	if !u {
 		g.tab.signed[s] = true
-		lo, hi, _ := g.typeRange(t)
-		if n < 64 {
-			a.st.rng(l, lo, hi)
+	}
+	if n < goWordBits {
+		// sub-word types: explicit rows
+		if u {
+			a.st.le(l.Sub(linK(hi)))
 		} else {
-			g.tab.implLo[s], g.tab.implHi[s] = lo, hi
+			a.st.rng(l, lo, hi)
 		}
 		return l
 	}
-	if n < 64 {
-		a.st.le(l.Sub(linK(qPow2(n).Sub(qi(1)))))
+	if u {
+		g.tab.implHi[s] = hi
 	} else {
-		g.tab.implHi[s] = qPow2(64).Sub(qi(1))
+		g.tab.implLo[s], g.tab.implHi[s] = lo, hi
 	}
 	return l
 }
@@ -199,7 +216,7 @@ func (g *goProg) rootOf(v ssa.Value) string {
 
 func (g *goProg) initial() *AbsState {
 	a := newAbs()
-	lim := qPow2(lenLimitLog)
+	lim := lenLimit()
 	for _, p := range g.fn.Params {
 		k := vkey(p)
 		switch {
@@ -223,11 +240,11 @@ func (g *goProg) initial() *AbsState {
 				if !u {
 					g.tab.signed[s] = true
 				}
-				if n < 64 || !u {
-					lo, hi, _ := g.typeRange(p.Type())
-					if n < 64 {
-						a.st.rng(linS(s), lo, hi)
-					}
+				lo, hi, _ := g.typeRange(p.Type())
+				if n < goWordBits {
+					a.st.rng(linS(s), lo, hi)
+				} else if goWordBits < 64 {
+					g.tab.implLo[s], g.tab.implHi[s] = lo, hi
 				}
 				a.vals[k] = linS(s)
 			}
@@ -275,8 +292,8 @@ func (g *goProg) sliceOf(a *AbsState, v ssa.Value) sliceAbs {
 		return sliceAbs{linI(0), linI(0), linI(0), "nil", true}
 	}
 	// unknown slice (loaded from memory, call result): fresh length/capacity
-	L := g.havocR(a, "len_"+v.Name(), qi(0), qPow2(lenLimitLog), true)
-	C := g.havocR(a, "cap_"+v.Name(), qi(0), qPow2(lenLimitLog), true)
+	L := g.havocR(a, "len_"+v.Name(), qi(0), lenLimit(), true)
+	C := g.havocR(a, "cap_"+v.Name(), qi(0), lenLimit(), true)
 	a.st.leq(L, C)
 	a.vals[k+".len"], a.vals[k+".cap"], a.vals[k+".off"] = L, C, linI(0)
 	return sliceAbs{L, C, linI(0), g.rootOf(v), true}
@@ -323,17 +340,17 @@ func (g *goProg) arith(a *AbsState, v ssa.Value, m Lin) []*AbsState {
 		case inHi && inLo:
 			a.vals[k] = m
 			return []*AbsState{a}
-		case n == 64 && inHi && !inLo:
+		case n >= goWordBits && inHi && !inLo:
 			// possible borrow: split
 			if a.st.maxLE(m, qi(-1)) {
-				a.vals[k] = m.Add(linK(g.two64))
+				a.vals[k] = m.Add(linK(qPow2(n)))
 				return []*AbsState{a}
 			}
 			a2 := a.clone()
 			a.st.le(m.Neg())
 			a.vals[k] = m
 			a2.st.le(m.AddK(1))
-			a2.vals[k] = m.Add(linK(g.two64))
+			a2.vals[k] = m.Add(linK(qPow2(n)))
 			return []*AbsState{a, a2}
 		}
 		if debugWrap != nil {
@@ -354,7 +371,7 @@ func (g *goProg) arith(a *AbsState, v ssa.Value, m Lin) []*AbsState {
 func (g *goProg) convert(a *AbsState, v *ssa.Convert) []*AbsState {
 	k := vkey(v)
 	tn, tu, ok := isIntType(v.Type())
-	_, _, sok := isIntType(v.X.Type())
+	sn, _, sok := isIntType(v.X.Type())
 	if !ok || !sok {
 		if ok {
 			a.vals[k] = g.havocT(a, "conv_"+v.Name(), v.Type())
@@ -369,16 +386,17 @@ func (g *goProg) convert(a *AbsState, v *ssa.Convert) []*AbsState {
 			a.vals[k] = x
 			return []*AbsState{a}
 		}
-		if tn == 64 && inHi {
+		if tn >= goWordBits && sn <= tn && inHi {
+			// sign-extended negative value: wraps to x + 2^tn
 			if a.st.maxLE(x, qi(-1)) {
-				a.vals[k] = x.Add(linK(g.two64))
+				a.vals[k] = x.Add(linK(qPow2(tn)))
 				return []*AbsState{a}
 			}
 			a2 := a.clone()
 			a.st.le(x.Neg())
 			a.vals[k] = x
 			a2.st.le(x.AddK(1))
-			a2.vals[k] = x.Add(linK(g.two64))
+			a2.vals[k] = x.Add(linK(qPow2(tn)))
 			return []*AbsState{a, a2}
 		}
 		a.vals[k] = g.havocT(a, "conv_"+v.Name(), v.Type())
@@ -390,17 +408,18 @@ func (g *goProg) convert(a *AbsState, v *ssa.Convert) []*AbsState {
 		a.vals[k] = x
 		return []*AbsState{a}
 	}
-	if tn == 64 && inLo {
-		// uint64 -> int64 of a possibly huge value: split at 2^63
-		if a.st.minGE(x, g.two63) {
-			a.vals[k] = x.Sub(linK(g.two64))
+	if tn >= goWordBits && sn <= tn && inLo {
+		// uintN -> intN of a possibly huge value: split at 2^(N-1)
+		half := qPow2(tn - 1)
+		if a.st.minGE(x, half) {
+			a.vals[k] = x.Sub(linK(qPow2(tn)))
 			return []*AbsState{a}
 		}
 		a2 := a.clone()
 		g.assumeLEq(a, x, hi)
 		a.vals[k] = x
-		g.assumeGEq(a2, x, g.two63)
-		a2.vals[k] = x.Sub(linK(g.two64))
+		g.assumeGEq(a2, x, half)
+		a2.vals[k] = x.Sub(linK(qPow2(tn)))
 		return []*AbsState{a, a2}
 	}
 	a.vals[k] = g.havocT(a, "conv_"+v.Name(), v.Type())
@@ -726,13 +745,13 @@ func (g *goProg) call(a *AbsState, x *ssa.Call, check bool) []*AbsState {
 			} else if arr, isA := x.Call.Args[0].Type().Underlying().(*types.Array); isA {
 				a.vals[k] = linI(arr.Len())
 			} else {
-				a.vals[k] = g.havocR(a, "len_"+x.Name(), qi(0), qPow2(lenLimitLog), true)
+				a.vals[k] = g.havocR(a, "len_"+x.Name(), qi(0), lenLimit(), true)
 			}
 		case "cap":
 			if isSliceType(x.Call.Args[0].Type()) {
 				a.vals[k] = g.sliceOf(a, x.Call.Args[0]).cap
 			} else {
-				a.vals[k] = g.havocR(a, "cap_"+x.Name(), qi(0), qPow2(lenLimitLog), true)
+				a.vals[k] = g.havocR(a, "cap_"+x.Name(), qi(0), lenLimit(), true)
 			}
 		case "copy":
 			d := g.sliceOf(a, x.Call.Args[0])
@@ -740,7 +759,7 @@ func (g *goProg) call(a *AbsState, x *ssa.Call, check bool) []*AbsState {
 			if isSliceType(x.Call.Args[1].Type()) {
 				s = g.sliceOf(a, x.Call.Args[1])
 			} else {
-				L := g.havocR(a, "strlen", qi(0), qPow2(lenLimitLog), true)
+				L := g.havocR(a, "strlen", qi(0), lenLimit(), true)
 				s = sliceAbs{L, L, linI(0), "string", true}
 			}
 			var outs []*AbsState
@@ -772,13 +791,13 @@ func (g *goProg) call(a *AbsState, x *ssa.Call, check bool) []*AbsState {
 			return outs
 		case "append":
 			d := g.sliceOf(a, x.Call.Args[0])
-			L := g.havocR(a, "applen", qi(0), qPow2(lenLimitLog), true)
+			L := g.havocR(a, "applen", qi(0), lenLimit(), true)
 			a.st.leq(d.len, L)
 			if len(x.Call.Args) > 1 && isSliceType(x.Call.Args[1].Type()) {
 				s := g.sliceOf(a, x.Call.Args[1])
 				a.st.eqq(L, d.len.Add(s.len))
 			}
-			C := g.havocR(a, "appcap", qi(0), qPow2(lenLimitLog+1), true)
+			C := g.havocR(a, "appcap", qi(0), lenLimit().Add(lenLimit()), true)
 			a.st.leq(L, C)
 			g.setSlice(a, x, sliceAbs{L, C, linI(0), "alloc", true})
 		default:
@@ -822,7 +841,7 @@ func (g *goProg) call(a *AbsState, x *ssa.Call, check bool) []*AbsState {
 	if f != nil && f.Pkg != nil && f.Pkg.Pkg.Path() == pkgBlock && f.Name() == "CompressBlockBound" && len(x.Call.Args) == 1 {
 		n := g.val(a, x.Call.Args[0])
 		if a.st.minGE(n, qi(0)) {
-			q := g.havocR(a, "div255", qi(0), qPow2(lenLimitLog), true)
+			q := g.havocR(a, "div255", qi(0), lenLimit(), true)
 			a.st.leq(q.Scale(qi(255)), n)
 			a.st.leq(n, q.Scale(qi(255)).AddK(254))
 			a.vals[k] = n.Add(q).AddK(16)
@@ -1183,7 +1202,7 @@ func analyseGoFunc(p *Program, fn *ssa.Function, name string, assertRoots []stri
 				}
 			}
 		} else if strings.HasSuffix(key, ".len") || strings.HasSuffix(key, ".cap") || strings.HasSuffix(key, ".off") || strings.HasSuffix(key, ".elt") {
-			g.tab.implLo[s], g.tab.implHi[s] = qPow2(lenLimitLog+1).Neg(), qPow2(lenLimitLog+1)
+			g.tab.implLo[s], g.tab.implHi[s] = lenLimit().Add(lenLimit()).Neg(), lenLimit().Add(lenLimit())
 		}
 	}
 	var res *bndResult
